@@ -15,7 +15,7 @@ package jsonrpc
 //@ property C04 units: (*rpcFunc).handleRpcCall, (*client).makeRpcFunc, (*client).provide, httpClient$1, (*wsConn).handleWsConn, (*wsConn).frameExecutor, (*wsConn).handleFrame, (*wsConn).handleCall, (*handler).handle, (*wsConn).closeInFlight, (*wsConn).closeChans, (*wsConn).tryReconnect, (*wsConn).tryReconnect$1
 //@ property C06 units: (*client).setupRequestChan$1, (*wsConn).handleCtxAsync, (*wsConn).handleResponse, (*wsConn).cancelCtx, (*wsConn).handleCall, (*wsConn).handleCall$2, (*wsConn).handleCall$3, (*handler).handle, (*wsConn).closeInFlight, (*RPCServer).ServeHTTP, (*handler).handleReader, httpClient$1, (*wsConn).handleFrame
 //@ property C15 units: (*handler).handleReader$1, (*wsConn).handleCall$1, (*lazyWriter).Write$1, websocketClient$2$1, (*RPCServer).handleWS$1, (*wsConn).handleWsConn, (*wsConn).handleCall, (*wsConn).closeInFlight, (*wsConn).nextWriter, (*wsConn).readFrame, (*wsConn).frameExecutor, (*client).sendRequest, (*client).setupRequestChan$1, (*wsConn).handleOutChans, (*wsConn).handleChanOut, withLazyWriter, (*lazyWriter).Write, (*lazyWriter).Write$1$1, (*RPCServer).handleWS
-//@ property C16 units: WithClientHandler$1, websocketClient$2$1, WithReverseClient$1$1, ExtractReverseClient, (*RPCServer).handleWS, (*RPCServer).ServeHTTP, (*client).setupRequestChan$1, (*wsConn).handleChanOut, websocketClient, WithClientHandlerAlias$1, (*wsConn).closeInFlight, (*wsConn).handleWsConn, (*wsConn).handleCall
+//@ property C16 units: WithClientHandler$1, websocketClient$2$1, WithReverseClient$1$1, ExtractReverseClient, (*RPCServer).handleWS, (*RPCServer).ServeHTTP, (*client).setupRequestChan$1, (*wsConn).handleChanOut, websocketClient, WithClientHandlerAlias$1, (*wsConn).closeInFlight, (*wsConn).handleWsConn, (*wsConn).handleCall, (*handler).handle
 //@ property C07 units: (*client).makeOutChan$1, (*client).setupRequestChan, (*wsConn).handleOutChans, (*wsConn).handleOutChans$1, (*wsConn).handleChanOut, (*handler).handle, (*wsConn).handleResponse, (*wsConn).handleChanMessage, (*client).makeOutChan$1$1, (*client).makeOutChan$1$2, (*wsConn).handleFrame, (*param).MarshalJSON
 //@ property C08 units: (*client).makeOutChan$1, (*wsConn).setupPings$5$1, (*wsConn).handleChanOut, (*wsConn).handleOutChans, (*wsConn).handleChanClose, (*wsConn).closeChans, (*wsConn).handleChanMessage, (*wsConn).tryReconnect, (*wsConn).handleWsConn, (*client).makeOutChan$1$1, (*client).makeOutChan$1$2, (*wsConn).handleResponse
 //@ property C11 units: (*ErrClient).Error, (*ErrClient).Unwrap, WithErrors$1, WithServerErrors$1, (*client).setupRequestChan$1, (*handler).createError, (*Errors).Register, NewErrors, (*JSONRPCError).val, (*JSONRPCError).Error, (*rpcFunc).processResponse, (*rpcFunc).processError, (*handler).handle, (response).MarshalJSON, processFuncOut, (*wsConn).handleResponse, NewCustomClient
@@ -59,7 +59,7 @@ package jsonrpc
 //@ static client-response-wire-shape: jsontag(#clientResponse, "Jsonrpc") == "jsonrpc" && jsontag(#clientResponse, "Result") == "result" && jsontag(#clientResponse, "ID") == "id" && jsontag(#clientResponse, "Error") == "error,omitempty" [C09,C01,C02,C11]
 //@ static error-object-wire-shape: jsontag(#JSONRPCError, "Code") == "code" && jsontag(#JSONRPCError, "Message") == "message" && jsontag(#JSONRPCError, "Meta") == "meta,omitempty" && jsontag(#JSONRPCError, "Data") == "data,omitempty" [C09,C11]
 //@ static protocol-error-codes: rpcParseError == -32700 && rpcInvalidRequest == -32600 && rpcMethodNotFound == -32601 && rpcInvalidParams == -32602 [C09,C12]
-//@ static user-codes-start-above-the-generic-code: FirstUserCode > 1 [C11]
+//@ static user-codes-start-above-the-generic-and-the-panic-code: FirstUserCode > 1 [C11,C13]
 //@ static connection-error-code-is-the-registered-one: eTempWSError == -1111111 [C05,C11]
 //@ static builtin-method-names: wsCancel == "xrpc.cancel" && chValue == "xrpc.ch.val" && chClose == "xrpc.ch.close" [C12,C06,C07,C08]
 //@ static raw-params-is-its-own-type: #RawParams != #json.RawMessage [C01,C09,C12]
@@ -68,7 +68,8 @@ package jsonrpc
 //@ core C01 C02 C03 C04 C05 C06 C16: (*wsConn).handleWsConn, (*wsConn).tryReconnect, (*wsConn).tryReconnect$1, (*wsConn).nextMessage, (*wsConn).readFrame, (*wsConn).closeInFlight, (*wsConn).handleResponse, (*wsConn).sendRequest, (*client).setupRequestChan, (*client).setupRequestChan$1, (*wsConn).handleCall, (*wsConn).frameExecutor, (*wsConn).handleFrame
 //@ core C07 C08 C09 C15: (*wsConn).handleOutChans, (*wsConn).handleOutChans$1, (*wsConn).handleChanOut, (*wsConn).handleChanMessage, (*wsConn).handleChanClose, (*wsConn).closeChans, (*client).makeOutChan$1, (*client).makeOutChan$1$1, (*client).makeOutChan$1$2
 //@ core C09 C12: (*handler).handle, (*handler).handleReader, rpcError, rpcError$1, doCall
-//@ core C01 C02 C04 C05 C11: (*rpcFunc).handleRpcCall, (*client).makeRpcFunc, (*rpcFunc).processResponse, (*rpcFunc).processError, (*client).sendRequest, processFuncOut, (*JSONRPCError).val, (*handler).createError
+//@ core C14: normalizeID
+//@ core C01 C02 C04 C05 C11 C16: (*rpcFunc).handleRpcCall, (*client).makeRpcFunc, (*rpcFunc).processResponse, (*rpcFunc).processError, (*client).sendRequest, processFuncOut, (*JSONRPCError).val, (*handler).createError
 //@ core C04 C09 C10 C13 C15: (*wsConn).handleCall, (*wsConn).readFrame, (*wsConn).frameExecutor
 //@ -- module-wide rules (global ...) of these properties are checked in EVERY function of the module, not only in the
 //@ -- units listed above: code added anywhere (a new helper, a new goroutine body, a callback) is held to them too
@@ -457,6 +458,7 @@ package jsonrpc
 //@   ghost lastKeep : Bool = false
 //@   at dyncall done: set lastKeep = $0
 //@   ensures streams-keep-their-context: defined(outCh) ==> lastKeep == outCh [C06,C15]
+//@   ensures a-stream-is-any-channel-result: defined(outCh) ==> outCh == (handler.valOut != -1 && KindOf(OutT(rtypeOf(handler.handlerFunc), handler.valOut)) == 18) [C06,C15,C07]
 //@   ensures unresolved-calls-release-context: !resolvable(s, old(req.Method)) ==> !lastKeep [C06]
 //@   ghost released : Bool = false
 //@   at dyncall done: set released = released || !$0
@@ -471,7 +473,7 @@ package jsonrpc
 //@   at call withLazyWriter: assert error-reply-carries-no-result: resp.Error != nil ==> resp.Result == nil [C11,C09]
 //@   at store JSONRPCError.Code: assert internal-failures-use-the-generic-code: $val == 1 [C11]
 //@   at call createError: assert error-built-from-the-handlers-error-output: calls(doCall) == 1 && handler.errOut != -1 [C11]
-//@   at call doCall: assert dispatches-selected-handler: $1 == selected(s, old(req.Method)).handlerFunc && $0 == old(req.Method) && resolvable(s, old(req.Method)) [C12,C01]
+//@   at call doCall: assert dispatches-selected-handler: $1 == selected(s, old(req.Method)).handlerFunc && $0 == old(req.Method) && resolvable(s, old(req.Method)) [C12,C01,C16]
 //@   at call doCall: assert arity-checked-before-call: handler.hasRawParams || (defined(ps) && len(ps) == handler.nParams) [C12,C09]
 //@   ghost paramsDecoded : Bool = false
 //@   at call encoding/json.Unmarshal: assert decodes-the-requests-params: $0 == old(req.Params) [C12,C01]
